@@ -83,6 +83,11 @@ def cases(size, seed):
                     out.append('X double %s%s.%sE%d' % (sg, digs[:pt], digs[pt:], rnd.randint(-300, 300)))
             out.append('X decimal %s0.%s' % (sg, digs))
             out.append('X double %s%se%d' % (sg, digs, rnd.randint(-30, 30)))
+    # integers written with more than 34 digits of which at most 34 are significant (trailing zeros): exactly representable, exactly the value written
+    for (head, zeros) in (('1', 34), ('1', 40), ('-25', 40), ('1234567890123456789012345678901234', 3), ('9999999999999999999999999999999999', 10), ('-7', 100), ('5', 6111)):
+        for kind in ('integer', 'decimal', 'double'):
+            out.append('X %s %s%s' % (kind, head, '0' * zeros))
+        out.append('L %s%s' % (head.lstrip('-'), '0' * zeros))
     return out
 
 
